@@ -203,3 +203,65 @@ pub fn c17_ins_symbolic_one() {
     reach!("c17_ins_symbolic_one.end");
     std::mem::forget(r); std::mem::forget(db); std::mem::forget(p);
 }
+
+/// @harness id=c17_ins_more_shapes props=C17 tier=quick unwind=48 mem=8 cap=900
+/// Further single-line shapes, executed concretely: an annotated parameter, `*args, **kw`, a keyword-only marker, a
+/// tuple annotation with brackets, a decorated function (the `def` is on line 2), a nested function (indented `def`
+/// on line 2 of an outer function), a lambda default is NOT included (it holds a colon; see c17_ins_known_shapes).
+#[cfg_attr(kani, kani::proof)]
+#[cfg_attr(kani, kani::stub(std::path::Path::canonicalize, stubs::canonicalize_err))]
+#[cfg_attr(kani, kani::stub(core::unicode::unicode_data::white_space::lookup, stubs::uni_white_space))]
+#[cfg_attr(kani, kani::stub(core::slice::memchr::memchr, stubs::memchr_bytewise))]
+pub fn c17_ins_more_shapes() {
+    ins!("c17.insx.annotated", "def test_x(a: int):\n    pass\n", 1);
+    ins!("c17.insx.star_args", "def test_x(*args, **kw):\n    pass\n", 1);
+    ins!("c17.insx.kwonly", "def test_x(a, *, b):\n    pass\n", 1);
+    ins!("c17.insx.subscript_annotation", "def test_x(a: Dict[str, int]):\n    pass\n", 1);
+    ins!("c17.insx.decorated", "@pytest.mark.slow\ndef test_x(a):\n    pass\n", 2);
+    ins!("c17.insx.nested", "def outer():\n    def test_x(a):\n        pass\n", 2);
+    reach!("c17_ins_more_shapes.end");
+}
+
+/// does the parameter list of the def on `def_line` hold a default (`=` at bracket depth 1, not `==`)?
+fn has_default(text: &str, def_line: usize) -> bool {
+    let b = text.as_bytes();
+    let mut i = 0; let mut line = 1;
+    while line < def_line && i < b.len() { if b[i] == b'\n' { line += 1; } i += 1; }
+    while i < b.len() && b[i] != b'(' { i += 1; }
+    if i >= b.len() { return false; }
+    i += 1;
+    let mut depth = 1usize;
+    while i < b.len() {
+        let c = b[i];
+        if c == b'(' || c == b'[' || c == b'{' { depth += 1; }
+        if c == b')' || c == b']' || c == b'}' { depth -= 1; if depth == 0 { return false; } }
+        if c == b'=' && depth == 1 { return true; }
+        i += 1;
+    }
+    false
+}
+
+/// @harness id=c17_ins_after_default props=C17 tier=quick unwind=40 mem=8 cap=900
+/// `def test_x(a=1):` and `def test_x(a, b=g()):` — a positional parameter appended at the closing parenthesis would
+/// follow a defaulted one (`def test_x(a=1, fx):` is a syntax error): the insertion point must lie BEFORE the first
+/// defaulted parameter, so it must not be the closing parenthesis.
+#[cfg_attr(kani, kani::proof)]
+#[cfg_attr(kani, kani::stub(std::path::Path::canonicalize, stubs::canonicalize_err))]
+#[cfg_attr(kani, kani::stub(core::unicode::unicode_data::white_space::lookup, stubs::uni_white_space))]
+#[cfg_attr(kani, kani::stub(core::slice::memchr::memchr, stubs::memchr_bytewise))]
+pub fn c17_ins_after_default() {
+    let t1 = "def test_x(a=1):\n    pass\n";
+    let t2 = "def test_x(a, b=g()):\n    pass\n";
+    let g1 = got_insertion(t1, 1); let g2 = got_insertion(t2, 1);
+    let c1 = want_insertion(t1, 1).map(|w| (w.0, w.1)); let c2 = want_insertion(t2, 1).map(|w| (w.0, w.1));
+    note!("{:?}: insertion point {:?}, closing parenthesis at {:?}, list holds a default: {}", t1, g1, c1, has_default(t1, 1));
+    note!("{:?}: insertion point {:?}, closing parenthesis at {:?}, list holds a default: {}", t2, g2, c2, has_default(t2, 1));
+    let ok1 = !(has_default(t1, 1) && g1.map(|g| (g.0, g.1)) == c1);
+    let ok2 = !(has_default(t2, 1) && g2.map(|g| (g.0, g.1)) == c2);
+    if crate::kf::C17_INSERT_AFTER_DEFAULTED_PARAMETER {
+        check!("KF:c17.insd.not_after_default", ok1 && ok2);
+    } else {
+        check!("c17.insd.not_after_default", ok1 && ok2);
+    }
+    reach!("c17_ins_after_default.end");
+}
